@@ -947,10 +947,10 @@ func c15Sinks(r *Rng, nrand int) []c15Sink {
 	inner := []c15Sink{
 		c15FmtSink("err", c15Plain("v", "+")), c15FmtSink("err", c15RandSpec(r)),
 		c15FmtSink("value", c15Plain("v", "+")), c15FmtSink("value", c15RandSpec(r)),
-		c15FmtSink("fields", c15Plain("v", "")), c15FmtSink("fields", c15RandPtrSpec(r)),
+		c15FmtSink("fields", Pick(r, []*c15Spec{c15Plain("v", ""), c15RandPtrSpec(r)})),
 		c15FmtSink(Pick(r, []string{"tree", "node"}), c15RandSpec(r)),
-		{Kind: "json", Tgt: "err"}, {Kind: "json", Tgt: Pick(r, []string{"fields", "value", "node", "treenode"})},
-		{Kind: "logtext", Tgt: "err"}, {Kind: "logjson", Tgt: "err"},
+		{Kind: "json", Tgt: Pick(r, []string{"err", "err", "fields", "value", "node", "treenode"})},
+		{Kind: Pick(r, []string{"logtext", "logjson"}), Tgt: "err"},
 		{Kind: Pick(r, []string{"logtext", "logjson"}), Tgt: Pick(r, []string{"fields", "node", "treenode", "value", "stack"})},
 	}
 	for i := range inner {
@@ -960,7 +960,8 @@ func c15Sinks(r *Rng, nrand int) []c15Sink {
 	return ss
 }
 
-var c15PubStrs = []string{"n", "a b", "x\"y", "l1\nl2", "k=v", "", "<y> & z", "back\\slash"}
+var c15PubStrs = []string{"n", "a b", "x\"y", "l1\nl2", "k=v", "", "y> & z", "back\\slash"}
+// no public text contains "<" (first character of the marker token; see wf in Check/C15.v), so no int 60 either
 var c15PubInts = []int64{5, 42, 65, -3, 1000000, 0, 39, 92}
 
 func c15Leaf(r *Rng) c15Shape {
@@ -973,7 +974,7 @@ func c15Leaf(r *Rng) c15Shape {
 	return c15Shape{K: "bool", B: r.Bool()}
 }
 
-var c15Keys = []string{"a", "k", "z", "<y>", "two words", "Q"}
+var c15Keys = []string{"a", "k", "z", "&y>", "two words", "Q"}
 
 // a random shape containing at least one secret; [inside]: only shapes the statement covers
 func c15RandShape(r *Rng, depth int, inside bool) c15Shape {
@@ -1019,7 +1020,7 @@ func genC15(r *Rng, tier string) []Case {
 		shape  c15Shape
 	}{
 		{"direct", red},
-		{"details", c15Shape{K: "map", Keys: []string{"x", "<y>", "deep"}, Kids: []c15Shape{red, {K: "int", I: 1}, {K: "slice", Kids: []c15Shape{red, {K: "str", S: "l1\nl2"}}}}}},
+		{"details", c15Shape{K: "map", Keys: []string{"x", "&y>", "deep"}, Kids: []c15Shape{red, {K: "int", I: 1}, {K: "slice", Kids: []c15Shape{red, {K: "str", S: "l1\nl2"}}}}}},
 		{"any", c15Shape{K: "sx", S: "a b", I: 5}},
 		{"any", c15Shape{K: "map", Keys: []string{"k", "a"}, Kids: []c15Shape{red, {K: "str", S: "x\"y"}}}},
 		{"any", c15Shape{K: "slice", Kids: []c15Shape{{K: "bool", B: true}, red, {K: "sx", S: "n", I: 65}}}},
@@ -1029,7 +1030,7 @@ func genC15(r *Rng, tier string) []Case {
 		{"any", c15Shape{K: "w", S: "n", I: 1, Kids: []c15Shape{red}}},
 		{"typed", c15Shape{K: "sx", S: "k=v", I: 39}},
 	}
-	nrand, nextra := 3, 12
+	nrand, nextra := 2, 8
 	if tier == "thorough" {
 		nrand, nextra = 14, 700
 	}
